@@ -201,12 +201,52 @@ def check_global_attr_precedence(ctx):
     return [(by[i], cl) for i, cl in rej if cl != "c07_roundtrip"], len(events)
 
 
+def check_api_meta(ctx):
+    import qcexec  # noqa: F401
+    import pipe_exec
+    import tv
+    from ioos_qc import argo, axds, qartod
+    events = []
+    for mod, names in ((qartod, ["gross_range_test", "location_test", "climatology_test", "spike_test", "rate_of_change_test",
+                                 "flat_line_test", "attenuated_signal_test", "density_inversion_test", "aggregate"]),
+                       (argo, ["pressure_increasing_test", "speed_test"]), (axds, ["valid_range_test"])):
+        for nme in names:
+            f = getattr(mod, nme)
+            events.append({"id": len(events) + 1, "ev": "meta", "fn": "%s.%s" % (mod.__name__, nme),
+                           "has_standard_name": hasattr(f, "standard_name"), "has_long_name": hasattr(f, "long_name")})
+    tb = {"t": [0, 10, 20, 30], "hastime": True, "data": {"a": [0, 5, -3, 300], "b": [1, 1, 5, 0]}, "z": [0, 1, 2, 3],
+          "lat": [1, 2, 3, 4], "lon": [5, 6, 7, 8]}
+    cfg = [{"win": [NA_, NA_], "entries": [{"stream": "a", "fn": "gross", "p": {"fail": [0, 4], "susp": []}}]}]
+    wd = tlc.workdir("extra_acc")
+    for fe in ("pandas", "numpy_arr", "xarray", "netcdf_ds"):
+        st = pipe_exec.make_stream(fe, tb, cfg, wd)
+        for what in ("time", "data"):
+            e = {"id": len(events) + 1, "ev": "accessor", "frontend": fe, "what": what, "exc": "", "got": [],
+                 "want": tb["t"] if what == "time" else tb["data"]["a"]}
+            try:
+                if what == "time":
+                    v = st.time()
+                else:
+                    v = st.data() if fe == "numpy_arr" else st.data("a")
+                e["got"] = pipe_exec.absarr(v.to_numpy() if hasattr(v, "to_numpy") else v)
+            except Exception as ex:  # noqa: BLE001
+                e["exc"] = type(ex).__name__
+            events.append(e)
+    rej, _ = tv.validate(events, "ApiMeta", "X_api")
+    by = {e["id"]: e for e in events}
+    return [(by[i], cl) for i, cl in rej], len(events)
+
+
+NA_ = -999999999
+
+
 def run():
     ctx = core.Ctx("X-extra", "quick", 20261002)
     rc = 0
     for name, fn in (("Config container API (ConfigOps.tla)", check_configops), ("utils.check_timestamps (TimeUtil.tla)", check_timestamps),
                      ("2-D inputs keep their shape (Trace_Qc, recall)", check_2d),
-                     ("global ioos_qc_config attribute wins over per-variable attributes (Trace_Config)", check_global_attr_precedence)):
+                     ("global ioos_qc_config attribute wins over per-variable attributes (Trace_Config)", check_global_attr_precedence),
+                     ("flag metadata of the test functions, stream accessors (ApiMeta.tla)", check_api_meta)):
         owned, n = fn(ctx)
         ctx.log("%s: %d events, %d rejected clauses" % (name, n, len(owned)))
         for e, cl in owned[:6]:
